@@ -576,6 +576,16 @@ class _ScopeVisitor(_ExpressionVisitor):
             self.names[name] = pyname
 
 
+    def _Nonlocal(self, node):
+        if self.owner_object is None or self.owner_object.parent is None:
+            return
+        enclosing = self.owner_object.parent.get_scope()
+        for name in node.names:
+            pyname = enclosing.lookup(name)
+            if pyname is not None:
+                self.names[name] = pyname
+
+
 class _ComprehensionVisitor(_ScopeVisitor):
     def _comprehension(self, node):
         self.visit(node.target)
